@@ -9,6 +9,7 @@ ASSUMPTIONS = ASSUME_PY + ["A-INT: int(str) as Model/KeyPattern.lean pyInt (stri
 RULE = ("exhaustive offsets -3..12 x item counts 0..12 x keys {all displayed numbers, neighbours, lenient spellings, non-ASCII digits, '1_0', '', text} "
         "plus non-str keys (None, int, bytes, float, bool) and int() on exhaustive strings over {' ',+,-,_,0,1,a} up to length 4 and random ones; "
         "non-trivial = a callback fired or a displayed number was typed"
+        ' Callbacks are handed over as functions, bound methods of objects nothing else refers to, partials and callable objects.'
         ' Later rounds: kept containers with callbacks that fail at some invocation given key sequences; nested numbered containers with key patterns of their own (the line each item starts on shows its own number).')
 
 
@@ -23,6 +24,7 @@ def generate(rnd, tier):
             for pat in (["", ") "], ["[", "]"]):
                 for k in sorted(keys):
                     cases.append({"op": "key", "kp": [pat[0], pat[1], off], "items": items, "key": k})
+                    if (len(cases) + off) % 5 == 0: cases[-1]["cbkind"] = ("method", "partial", "callable")[(len(cases) // 5) % 3]
             for raw in ("None", "1", "b'1'", "1.0", "True"):
                 cases.append({"op": "key", "kp": ["", ") ", off], "items": items, "key": None, "rawkey": raw})
             for k in ("1", str(off), ""):
@@ -51,7 +53,8 @@ def generate(rnd, tier):
         cbs = [rnd.random() < 0.8 for _ in range(n)]
         raise_on = {str(i): [rnd.choice([1, 1, 2])] for i in range(n) if cbs[i] and rnd.random() < 0.3}
         keys = [str(rnd.randrange(n) + off) if rnd.random() < 0.8 else rnd.choice(["0", "9", "x", str(n + off)]) for _ in range(rnd.randint(2, 6))]
-        cases.append({"op": "keytree", "tree": ["list", False, 1, None, 2, kp, items], "w": 60, "cbs": cbs, "raise_on": raise_on, "keys": keys})
+        cases.append({"op": "keytree", "tree": ["list", False, 1, None, 2, kp, items], "w": 60, "cbs": cbs, "raise_on": raise_on, "keys": keys,
+                      "cbkind": rnd.choice([None, None, "method", "partial", "callable"])})
     return [with_cc(c) for c in cases]
 
 
